@@ -59,6 +59,7 @@ req_st = st.fixed_dictionaries({
     "pieces": st.lists(piece, min_size=1, max_size=4),
     "pauses": st.lists(st.integers(0, 2), min_size=1, max_size=4),
     "status": st.sampled_from(["200 OK", "200 OK", "201 Created", "404 Not Found", "204 No Content", "304 Not Modified"]),
+    "direct": st.sampled_from([False, False, False, True]),
 }).map(lambda r: dict(r, shape=(r["shape"] if r["shape"] in ("empty", "empty0") else "empty"))
        if r["status"][:3] in ("204", "304") else r      # 204 / 304 carry no body (with or without Content-Length: 0)
        ).map(lambda r: dict(r, shape=("fixed" if r["shape"] in ("fixed", "fixedgen", "stream", "chunked", "overlong", "raise", "raisegen") else "empty0"))
@@ -167,6 +168,7 @@ class Run(object):
         self.delivered = []      # (response dict reference, body snapshot at delivery)
         self.snaps = {}          # id(response) -> body snapshot, for responses still queued in the Patron
         self.fails = []
+        self.direct = set()      # indices of the requests sent with Patron.transmit()
 
     def collect(self, final=False):
         """Take delivered responses from the client's queue.
@@ -187,7 +189,19 @@ class Run(object):
 
     def queue_next(self):
         if self.queued < len(self.reqs):
-            _queue(self.patron, self.queued, self.reqs[self.queued])
+            r = self.reqs[self.queued]
+            if r.get("direct") and (self.patron.waited or self.patron.requests):
+                return       # a direct request waits until nothing is in process (tried again at the next call)
+            if r.get("direct"):
+                # nothing in process: the request is sent at once with Patron.transmit() instead of being queued with
+                # Patron.request(); it carries no correlation extras, so its response must not carry any either
+                from ioflo.aid.odicting import odict
+                self.patron.transmit(method=r["method"], path=u"/r", qargs=odict([("id", self.queued)]),
+                                     headers=odict([("X-Req-Id", str(self.queued)), ("Accept", "*/*")]),
+                                     body=r["reqbody"] if r["method"] not in ("GET", "HEAD") else None)
+                self.direct.add(self.queued)
+            else:
+                _queue(self.patron, self.queued, r)
             self.queued += 1
 
     def op(self, o):
@@ -242,8 +256,10 @@ def judge(run, calls, state, rounds):
         if resp.get("errored"):
             fails.append(("response-errored", "response %d errored: %r" % (k, resp.get("error"))))
             break
-        if echo != str(k) or rid != k:
-            fails.append(("order", "response %d echoes id %r and is attached to request rid %r; shapes %r" % (k, echo, rid, shapes)))
+        if echo != str(k) or rid != (None if k in run.direct else k):
+            fails.append(("order" if k not in run.direct else "direct-request-gets-another-requests-extras",
+                          "response %d echoes id %r and is attached to request rid %r%s; shapes %r"
+                          % (k, echo, rid, " (sent with transmit(), no rid of its own)" if k in run.direct else "", shapes)))
             break
         if resp.get("status") != code:
             fails.append(("status", "response %d status %r != %r" % (k, resp.get("status"), code)))
